@@ -3,6 +3,7 @@
 package loadbalancer
 
 import (
+	"reflect"
 	"runtime"
 	"bufio"
 	"context"
@@ -230,6 +231,30 @@ func (v *vLB) op(w []string) string {
 		}
 		v.lb = lb
 		return "ok"
+	}
+	if w[0] == "wire" {
+		// wire <max> <interval_s> <timeout_s> <fail> <succ> : what the balancer makes of a breaker
+		// configuration that validation accepts (the settings the breaker really runs with)
+		if len(w) != 6 {
+			return "bad-op"
+		}
+		cfg := &config.Config{}
+		cfg.Server.Port = 8080
+		cfg.LoadBalancer.Strategy = "round_robin"
+		cfg.Backends = []config.BackendConfig{{Name: "s1", Address: "http://127.0.0.1:9", Weight: 1}}
+		cfg.CircuitBreaker = config.CircuitBreakerConfig{Enabled: true, MaxRequests: atoi(w[1]), IntervalSeconds: atoi(w[2]),
+			TimeoutSeconds: atoi(w[3]), FailureThreshold: atoi(w[4]), SuccessThreshold: atoi(w[5])}
+		if err := cfg.Validate(); err != nil {
+			return "rejected"
+		}
+		lb, err := NewLoadBalancer(cfg)
+		if err != nil {
+			return "err"
+		}
+		defer lb.Stop()
+		cb := reflect.ValueOf(lb.circuitBreaker).Elem()
+		return fmt.Sprintf("eff %d %d %d %d %d", cb.FieldByName("maxRequests").Uint(), cb.FieldByName("interval").Int(),
+			cb.FieldByName("timeout").Int(), cb.FieldByName("failureThreshold").Uint(), cb.FieldByName("successThreshold").Uint())
 	}
 	if v.lb == nil {
 		return "bad-op"
